@@ -112,8 +112,14 @@ def main():
     seed = int(os.environ.get("VERIF_SEED", "0"))
     t_start = time.time()
     modrel = os.path.join("harness", pid + ".py")
-    mod = load_module(os.path.join(VERIF, modrel))
-    obs = mod.obligations(tier)
+    try:
+        mod = load_module(os.path.join(VERIF, modrel))
+        obs = mod.obligations(tier)
+    except Exception as e:  # noqa  (anchor missing, import error of a refactored module, ...)
+        import traceback
+
+        print("HARNESS-ERROR: property=%s cannot build the obligations from the current source: %s" % (pid, "".join(traceback.format_exception_only(type(e), e)).strip()[-600:]))
+        sys.exit(3)
     if only:
         obs = [o for o in obs if only in o.name]
     names = [o.name for o in obs]
@@ -197,8 +203,11 @@ def main():
         for ob, ci, r in canary_results
     ]
 
+    by_kf = {}
     for name, kf, rr in known_hit:
-        print("KNOWN-FINDING: property=%s %s [%s: %s]" % (pid, kf["text"], name, rr.get("tag")))
+        by_kf.setdefault(kf["id"], (kf, []))[1].append("%s: %s" % (name, rr.get("tag")))
+    for kid, (kf, hits) in by_kf.items():
+        print("KNOWN-FINDING: property=%s %s %s [%d obligation(s): %s]" % (pid, kid, kf.get("example", kf["text"])[:300], len(hits), "; ".join(hits)[:400]))
     for name, why in inconclusive:
         print("INCONCLUSIVE: property=%s obligation=%s %s" % (pid, name, why))
     for name in unknown:
